@@ -133,6 +133,7 @@ class Run:
         self.other_errors = collections.Counter()
         self.inconclusive = []
         self.required = []            # anchor functions that must have been reached
+        self.required_counters = []   # counters that must be > 0 for the run to be conclusive
         self.notes = {}
         self.exhaustive = None
         self.cov = Coverage()
@@ -172,6 +173,9 @@ class Run:
     def require(self, *funcs):
         self.required.extend(funcs)
 
+    def require_count(self, *names):
+        self.required_counters.extend(names)
+
     def unreachable(self, why):
         self.inconclusive.append(why)
 
@@ -185,7 +189,7 @@ class Run:
                 "observed": {k: sorted(map(repr, v))[:200000] for k, v in self.observed.items()},
                 "violations": self.violations, "violation_count": dict(self.violation_count),
                 "other_errors": dict(self.other_errors), "inconclusive": self.inconclusive,
-                "required": self.required, "notes": self.notes, "rule": self.rule,
+                "required": self.required, "required_counters": self.required_counters, "notes": self.notes, "rule": self.rule,
                 "assumptions": self.assumptions, "level": self.level, "exhaustive": self.exhaustive,
                 "cov_lines": sorted(self.cov.lines), "cov_funcs": sorted(self.cov.funcs)}
 
@@ -204,6 +208,7 @@ class Run:
         self.other_errors.update(p["other_errors"])
         self.inconclusive.extend(p["inconclusive"])
         self.required = sorted(set(self.required) | set(p["required"]))
+        self.required_counters = sorted(set(self.required_counters) | set(p.get("required_counters", [])))
         for k, v in p["notes"].items():
             if k in self.notes and isinstance(v, (int, float)) and isinstance(self.notes[k], (int, float)):
                 self.notes[k] = max(self.notes[k], v)
@@ -229,6 +234,9 @@ class Run:
         if self.cov.funcs or self.cov.lines:
             if missing:
                 self.inconclusive.append("anchor functions never executed: " + ", ".join(missing))
+        for c in sorted(set(self.required_counters)):
+            if self.counters.get(c, 0) == 0:
+                self.inconclusive.append(f"deciding situation never observed: counter '{c}' is 0")
         if self.evaluations == 0:
             self.inconclusive.append("deciding monitor was evaluated 0 times")
         if len(self.nontrivial) < 2:
